@@ -4,7 +4,7 @@ re-detect it; record the outcome in its meta.json."""
 import json, subprocess, re, sys, os
 MAP = {"F01": ["C01", "C15"], "F02": ["C06"], "F03": ["C15", "C12"], "F04": ["C15"], "F05": ["C17", "C15"], "F06": ["C20", "C15"],
        "F07": ["C14", "C15"], "F08": ["C05"], "F09": ["C05"], "F10": ["C16"], "F11": ["C12"], "F12": ["C19"], "F14": ["C04", "C15"],
-       "F15": ["C13"], "F16": ["C05"], "F17": ["C07"], "F26": ["C14"], "F27": ["C02"], "F31": ["C12"], "F32": ["C16", "C05", "C15", "C20"], "F33": ["C18"]}
+       "F15": ["C13"], "F16": ["C05"], "F17": ["C07"], "F26": ["C14"], "F27": ["C02"], "F31": ["C12"], "F32": ["C16", "C05", "C15", "C20"], "F33": ["C18"], "F35": ["C16"], "F36": ["C16"]}
 only = sys.argv[1:]
 for f, props in MAP.items():
     if only and f not in only: continue
